@@ -51,11 +51,12 @@ CLAIM = {
             '(n <= N - rank E_k) is now PROVED to imply the noise-eigenspace contract: for Re_k = pe.E E^H + s2.1 the '
             's2-eigenspace is ker E^H (pe != 0), of dimension N - rank E (ext_noise_eigenspace, rank-nullity); for '
             'n <= N - rank E it contains n orthonormal vectors, and any filter M.P^H built on such P has W Re W^H = '
-            's2 W W^H, W E = 0 (enough_streams_sacrificed); and for ANY factorisation Re_k = U diag(S) V^H with unitary '
+            's2 W W^H, W E = 0 (enough_streams_sacrificed; the bound is exact: enough_streams_iff); and for ANY factorisation Re_k = U diag(S) V^H with unitary '
             'factors and non-negative singular values in decreasing order (pe >= 0, s2 > 0) the n smallest singular '
             'values equal s2 and the n least right singular vectors - the matrix _calc_stream_reduction_matrix '
             'computes - satisfy Re P = s2 P, P^H P = 1, E^H P = 0 (least_singular_vectors_in_noise_space; end to end '
-            'with the receive filter: enough_streams_ext_int_removed).  What remains a per-case contract there: that '
+            'with the receive filter: enough_streams_ext_int_removed; such a factorisation exists for every E: '
+            'svd_contract_satisfiable; the decreasing order cannot be dropped: sorted_order_needed).  What remains a per-case contract there: that '
             'np.linalg.svd returns such a factorisation (factorisation, unitarity and "the n smallest singular values '
             'equal the noise variance" are checked numerically on every case; S >= 0 in decreasing order is numpy\'s '
             'documented behaviour, trusted), and n <= N - rank E itself is a precondition on the caller\'s num_streams (the '
